@@ -18,6 +18,9 @@
 (* under the lock and RELEASES it before talking to the chip (a tempting          *)
 (* "do not block the UI thread" refactoring): TLC must find the interleaved        *)
 (* exchanges.  Locked = FALSE is the design without the mutex.                     *)
+(* NotifyInside = FALSE reports "finished" to the host AFTER unlocking ("let the     *)
+(* host reconfigure the reader from its completion handler"): TLC must find the      *)
+(* next call's first callback delivered before it.                                   *)
 (*                                                                           *)
 (* Part 2 - INDEPENDENT verifications sharing one trust store: each call has    *)
 (* its own verification context (reference time = the signing time of ITS        *)
@@ -31,7 +34,8 @@ EXTENDS Integers, Sequences, FiniteSets, TLC
 CONSTANTS G,            \* goroutines
           Programs,     \* G -> sequence of operations; an operation is [op |-> "set", f |-> field, v |-> value] or [op |-> "long"]
           NExch,        \* exchanges per long call
-          WholeCall, Locked
+          WholeCall, Locked,
+          NotifyInside  \* TRUE (as built): the last status callback of a long call is delivered before the lock is released
 
 Fields == {"skipPace", "skipImages", "challenge", "maxLe"}
 Cfg0 == [skipPace |-> FALSE, skipImages |-> FALSE, challenge |-> 0, maxLe |-> 0]
@@ -44,31 +48,32 @@ VARIABLES cfg,          \* the object's configuration
           nx,           \* nx[g]: exchanges done by g's current long call
           xlog,         \* the exchanges as the chip / trust store saw them: sequence of call ids <<g, index>>
           results,      \* sequence of [g, op, cfgAtLinearization, seen]: one per completed long call
-          lin           \* linearization order: sequence of <<g, index>> in order of Acquire
-svars == << cfg, holder, pc, ip, seen, nx, xlog, results, lin >>
+          lin,          \* linearization order: sequence of <<g, index>> in order of Acquire
+          cb            \* the status callbacks the host's handler receives, in order: << g, index, "start" | "finished" >>
+svars == << cfg, holder, pc, ip, seen, nx, xlog, results, lin, cb >>
 
 Op(g) == Programs[g][ip[g]]
 
 SInit == /\ cfg = Cfg0 /\ holder = "none"
          /\ pc = [g \in G |-> "idle"] /\ ip = [g \in G |-> 1]
          /\ seen = [g \in G |-> Cfg0] /\ nx = [g \in G |-> 0]
-         /\ xlog = << >> /\ results = << >> /\ lin = << >>
+         /\ xlog = << >> /\ results = << >> /\ lin = << >> /\ cb = << >>
 
 Call(g) == /\ pc[g] = "idle" /\ ip[g] <= Len(Programs[g])
            /\ pc' = [pc EXCEPT ![g] = "called"]
-           /\ UNCHANGED << cfg, holder, ip, seen, nx, xlog, results, lin >>
+           /\ UNCHANGED << cfg, holder, ip, seen, nx, xlog, results, lin, cb >>
 
 Acquire(g) == /\ pc[g] = "called"
               /\ (Locked => holder = "none")
               /\ holder' = IF Locked THEN g ELSE holder
               /\ pc' = [pc EXCEPT ![g] = "in"]
               /\ lin' = Append(lin, << g, ip[g] >>)
-              /\ UNCHANGED << cfg, ip, seen, nx, xlog, results >>
+              /\ UNCHANGED << cfg, ip, seen, nx, xlog, results, cb >>
 
 Write(g) == /\ pc[g] = "in" /\ Op(g).op = "set"
             /\ cfg' = [cfg EXCEPT ![Op(g).f] = Op(g).v]
             /\ pc' = [pc EXCEPT ![g] = "done"]
-            /\ UNCHANGED << holder, ip, seen, nx, xlog, results, lin >>
+            /\ UNCHANGED << holder, ip, seen, nx, xlog, results, lin, cb >>
 
 Snapshot(g) == /\ pc[g] = "in" /\ Op(g).op = "long"
                /\ seen' = [seen EXCEPT ![g] = cfg]
@@ -76,29 +81,42 @@ Snapshot(g) == /\ pc[g] = "in" /\ Op(g).op = "long"
                \* the design that does not hold the lock for the whole call lets go of it here
                /\ holder' = IF WholeCall THEN holder ELSE "none"
                /\ pc' = [pc EXCEPT ![g] = "talk"]
+               /\ cb' = Append(cb, << g, ip[g], "start" >>)          \* the first status callback of the call
                /\ UNCHANGED << cfg, ip, xlog, results, lin >>
 
 \* one exchange with the chip / one lookup in the trust store
 Exchange(g) == /\ pc[g] = "talk" /\ nx[g] < NExch
                /\ nx' = [nx EXCEPT ![g] = @ + 1]
                /\ xlog' = Append(xlog, << g, ip[g] >>)
-               /\ UNCHANGED << cfg, holder, pc, ip, seen, results, lin >>
+               /\ UNCHANGED << cfg, holder, pc, ip, seen, results, lin, cb >>
 
 Release(g) == /\ \/ pc[g] = "done"
                  \/ pc[g] = "talk" /\ nx[g] = NExch
               /\ holder' = IF holder = g THEN "none" ELSE holder
               /\ results' = IF Op(g).op = "long" THEN Append(results, [g |-> g, i |-> ip[g], seen |-> seen[g]]) ELSE results
-              /\ pc' = [pc EXCEPT ![g] = "idle"]
-              /\ ip' = [ip EXCEPT ![g] = @ + 1]
+              /\ IF Op(g).op = "long" /\ ~NotifyInside
+                 THEN \* the design that reports "finished" after unlocking: the callback is a step of its own
+                      /\ pc' = [pc EXCEPT ![g] = "post"] /\ UNCHANGED << ip, cb >>
+                 ELSE /\ pc' = [pc EXCEPT ![g] = "idle"]
+                      /\ ip' = [ip EXCEPT ![g] = @ + 1]
+                      /\ cb' = IF Op(g).op = "long" THEN Append(cb, << g, ip[g], "finished" >>) ELSE cb
               /\ UNCHANGED << cfg, seen, nx, xlog, lin >>
 
-SNext == \E g \in G : Call(g) \/ Acquire(g) \/ Write(g) \/ Snapshot(g) \/ Exchange(g) \/ Release(g)
+Finish(g) == /\ pc[g] = "post"
+             /\ cb' = Append(cb, << g, ip[g], "finished" >>)
+             /\ pc' = [pc EXCEPT ![g] = "idle"]
+             /\ ip' = [ip EXCEPT ![g] = @ + 1]
+             /\ UNCHANGED << cfg, holder, seen, nx, xlog, results, lin >>
+
+SNext == \E g \in G : Call(g) \/ Acquire(g) \/ Write(g) \/ Snapshot(g) \/ Exchange(g) \/ Release(g) \/ Finish(g)
 
 \* ---- properties of part 1 --------------------------------------------------------------------------
 \* at most one goroutine inside a critical section
 Mutex == Cardinality({g \in G : pc[g] \in {"in", "snap", "done"} \/ (pc[g] = "talk" /\ WholeCall)}) <= 1
 \* the chip never sees the exchanges of two calls interleaved: the exchanges of one call are consecutive
 NoInterleaving == \A i, j, k \in 1..Len(xlog) : (i < j /\ j < k /\ xlog[i] = xlog[k]) => xlog[j] = xlog[i]
+\* the host's status handler never sees the callbacks of two calls interleaved: those of one call are consecutive
+CallbacksSerial == \A i, j, k \in 1..Len(cb) : (i < j /\ j < k /\ cb[i][1] = cb[k][1] /\ cb[i][2] = cb[k][2]) => (cb[j][1] = cb[i][1] /\ cb[j][2] = cb[i][2])
 \* a sequential execution of the calls in linearization order: the configuration after the first k operations
 RECURSIVE CfgAfter(_)
 CfgAfter(k) == IF k = 0 THEN Cfg0
